@@ -31,7 +31,7 @@ import (
 
 type c04Job struct {
 	Pairs   string `json:"pairs"` // subset of "123"
-	Var     string `json:"var"`   // same | event | addr
+	Var     string `json:"var"`   // same | event | addr | plans-tx | plans-ev
 	Restart string `json:"restart"` // "" | P1 | P2 | P3: this pair's thread restarts everything (loadTasks) before its second step
 	K       int    `json:"k"` // steps per pair thread in the explored phase
 	Batch   int    `json:"batch"`
@@ -49,7 +49,7 @@ func init() {
 		ID:        "C04",
 		Level:     "model_checking",
 		Technique: "stateless model checking of the real pipeline (controlled scheduler over instrumented code, fake Postgres, two simulated nodes): all step-granular interleavings (plus preemption-bounded finer ones) of one thread per (source, integration) pair, one environment thread per source (growth + reorg) and a restart driver; oracle = frame condition on every commit diff (only rows and positions stamped with the acting pair may change), stamp of every inserted row, and per-pair projection of the pair's own canonical chain at quiescence",
-		Rule: "jobs = every subset of size 2 and 3 of {P1=(srcA,ig1), P2=(srcA,ig2), P3=(srcB,ig1)} (one shared table; srcA and srcB are different nodes with different chains; every pair has indexed block 1 before the explored phase) x declaration variant {same event, different events, same event with disjoint log_addr filters} x restart {none, by P1 before its second step in the subset {P1,P2} (thorough: also by P2 there, and by P3 in {P1,P3} and {P2,P3})} x K=2 steps per pair (thorough also 3) with one reorg (longer replacement) per source; " +
+		Rule: "jobs = every subset of size 2 and 3 of {P1=(srcA,ig1), P2=(srcA,ig2), P3=(srcB,ig1)} (one shared table; srcA and srcB are different nodes with different chains; every pair has indexed block 1 before the explored phase) x declaration variant {same event, different events, same event with disjoint log_addr filters, different data plans on one client: headers+logs next to transaction indexing (full blocks) / next to the same event selecting tx_input (blocks+logs)} x restart {none, by P1 before its second step in the subset {P1,P2} (thorough: also by P2 there, and by P3 in {P1,P3} and {P2,P3})} x K=2 steps per pair (thorough also 3) with one reorg (longer replacement) per source; " +
 			"per job every schedule with free switches at the step boundaries of the first source's pairs and <= 1 preemption (thorough: 2 on the two-pair jobs without restart; three-pair jobs: quick 0, thorough 1); preemptive switches to a pair/environment thread only at RPC exchanges with its own node. Non-trivial = rows inserted by two different pairs or a reorg deletion committed; distinct = distinct (job, choice sequence).",
 		Assumptions: []string{
 			"fake Postgres (h/simpg) interprets the SQL shovel sends; simulated nodes (h/simeth) answer like well-behaved geth nodes",
@@ -69,9 +69,10 @@ func init() {
 func c04Jobs(thorough bool) []c04Job {
 	var jobs []c04Job
 	for _, ps := range []string{"12", "13", "23", "123"} {
-		for _, v := range []string{"same", "event", "addr"} {
-			if !strings.Contains(ps, "2") && v == "event" {
-				continue // ig2 absent: the variant only changes ig2
+		for _, v := range []string{"same", "event", "addr", "plans-tx", "plans-ev"} {
+			only2 := v == "event" || v == "plans-tx" || v == "plans-ev" // variants that only change ig2
+			if only2 && (!strings.Contains(ps, "2") || (v != "event" && !strings.Contains(ps, "1"))) {
+				continue // ig2 absent, or (data-plan variants) no sibling of ig2 on the same source client
 			}
 			jobs = append(jobs, c04Job{Pairs: ps, Var: v, K: 2, Batch: 1})
 			if thorough && len(ps) == 2 {
@@ -79,10 +80,10 @@ func c04Jobs(thorough bool) []c04Job {
 				jobs = append(jobs, c04Job{Pairs: ps, Var: v, K: 3, Batch: 1})
 			}
 			for i := 0; i < len(ps); i++ {
-				if !thorough && (i > 0 || v == "event" || ps != "12") {
+				if !thorough && (i > 0 || only2 || ps != "12") {
 					continue // quick: P1 restarts next to P2 (same source client)
 				}
-				if thorough && (len(ps) > 2 || v == "event" || (ps != "12" && (v != "same" || ps[i] != '3'))) {
+				if thorough && (len(ps) > 2 || only2 || (ps != "12" && (v != "same" || ps[i] != '3'))) {
 					continue // thorough: both pairs of {P1,P2} restart; next to P3 (other source) P3 restarts
 				}
 				jobs = append(jobs, c04Job{Pairs: ps, Var: v, Restart: "P" + ps[i:i+1], K: 2, Batch: 1})
@@ -140,6 +141,13 @@ func c04Decl(variant, ig string, srcs []world.SrcRef) *world.Decl {
 	switch {
 	case variant == "event" && ig == "ig2":
 		d = shape("L3", ig, "t1", srcs...)
+	case variant == "plans-tx" && ig == "ig2":
+		// another DATA PLAN on the same client: ig1 needs headers+logs, ig2 full blocks (transaction indexing)
+		d = shape("T1", ig, "t1", srcs...)
+	case variant == "plans-ev" && ig == "ig2":
+		// same event as ig1 but it also selects tx_input: plan blocks+logs instead of headers+logs
+		d = shape("L1", ig, "t1", srcs...)
+		d.Fields = append(d.Fields, world.Field{Name: "tx_input", Column: "tx_input"}, world.Field{Name: "tx_value", Column: "tx_value"})
 	default:
 		d = shape("L1", ig, "t1", srcs...)
 	}
